@@ -128,8 +128,8 @@ def op_misc(p):
     if p["at"]:
         opts += [(p.get("at_w", 2), st.tuples(st.just("at"),
                            st.sampled_from(["off", "on", "disable", "enable", "off now", "on again", "off", "on",
-                                            "", "offline", "foo", " off", "disabled", "OFF", "lights off", "not on", "turn off now"]),
-                           st.sampled_from(["ExcludeRegion"] * 5 + ["excluderegion", "Other", "Exclude"]),
+                                            "", "", "", "now", "offline", "foo", " off", "disabled", "OFF", "lights off", "not on", "turn off now"]),
+                           st.sampled_from(["ExcludeRegion"] * 5 + ["excluderegion", "Other", "Other", "Exclude"]),
                            st.booleans() if p["streaming"] else st.just(False)))]
     if p.get("set_at"):
         entry = st.fixed_dictionaries({
@@ -239,7 +239,8 @@ def config(draw, p):
             table.append({
                 "command": draw(st.sampled_from(["ExcludeRegion", "ExcludeRegion", "Other", "excluderegion"])),
                 "parameterPattern": draw(st.sampled_from([None, "^\\s*(enable|on)(\\s|$)", "^\\s*(disable|off)(\\s|$)",
-                                                         "^off", "on", "^$", "^\\s*o(n|ff)", "off(\\s|$)", "on$"])),
+                                                         "^off", "on", "^$", "^\\s*o(n|ff)", "off(\\s|$)", "on$",
+                                                         "", "^\\s*$", ".*", "^\\s*(now)?\\s*$"])),
                 "action": draw(st.sampled_from(["enable_exclusion", "disable_exclusion"])),
             })
         cfg["at"] = table
